@@ -98,3 +98,36 @@ Definition step_scope (t : topology key) (ia i : N) (p : path) : bool :=
   | _ => true
   end.
 End Scope.
+
+(** ** Joinability (C01, last sentence): segments as AS sequences in construction order.
+    A route exists (without peering links) when: source and destination lie on one non-core
+    segment; or an up segment of the source and a down segment of the destination share an AS
+    (at a core, or below it: shortcut); or their core ends are joined by a core segment (in
+    either direction); with the degenerate forms when source or destination are core. *)
+Definition memN (x : N) (l : list N) : bool := existsb (N.eqb x) l.
+Definition joinable (src dst : N) (cores : list N) (segs : list (list N)) : bool :=
+  let is_core_seg s := memN (last s 0) cores in
+  let ups := filter (fun s => negb (is_core_seg s) && (last s 0 =? src)) segs in
+  let downs := filter (fun s => negb (is_core_seg s) && (last s 0 =? dst)) segs in
+  let csegs := filter is_core_seg segs in
+  let src_cores := if memN src cores then [src] else map (fun s => hd 0 s) ups in
+  let dst_cores := if memN dst cores then [dst] else map (fun s => hd 0 s) downs in
+  existsb (fun a => existsb (fun b =>
+      (a =? b) || existsb (fun c => ((hd 0 c =? a) && (last c 0 =? b)) || ((hd 0 c =? b) && (last c 0 =? a))) csegs)
+    dst_cores) src_cores
+  || existsb (fun u => existsb (fun d => existsb (fun x => memN x d) u) downs) ups
+  || existsb (fun u => memN dst u) ups
+  || existsb (fun d => memN src d) downs.
+
+(** a topology without peering links (then the finding C13-peer-link-segment-change cannot
+    be met) *)
+Definition no_peer_links {key : Type} (t : topology key) : bool :=
+  forallb (fun l => match l_ty l with SPeer => false | _ => true end) (t_links t).
+(** the first step of a run is in scope: a packet injected from inside an AS does not start
+    with a segment change *)
+Definition start_scope (i : N) (p : path) : bool :=
+  negb (i =? 0) ||
+  match seg_index (p_lens p) (p_ch p) with
+  | Some (_, _, true) => (length (p_hops p) <=? p_ch p + 1)%nat
+  | _ => true
+  end.
